@@ -577,7 +577,7 @@ harness!(ser_method2_decode, unwind = 8, { constant_decode(K_METHOD, 2) });
 harness!(ser_method3_decode, unwind = 8, { constant_decode(K_METHOD, 3) });
 
 // constant tags outside the documented table, and boolean bytes other than 0/1, are rejected
-harness!(ser_constant_reject, unwind = 6, {
+harness!(ser_constant_reject, unwind = 10, {
     let mut buf = [0u8; 8];
     let mut i = 0;
     while i < 8 { buf[i] = kani::any(); i += 1; }
